@@ -237,6 +237,7 @@ def u_global_lre():
 
 UNITS = [lambda: u_global_lre(), lambda: u_pointwise('gre'), lambda: u_pointwise('grd'), lambda: u_global('gre'), lambda: u_global('grd'), lambda: u_defaults('train'), lambda: u_defaults('test')]
 RT = True
+EVIDENCE_LEVEL = 'exploration'      # most clauses of C13 depend on what the estimator computes: the property as a whole stays at the bounded level
 TRUSTED = ["data-flow terms: whole arrays as terms over uninterpreted scaler / estimator / orthogonal-regression functions (free term algebra: equal terms mean the same data flow)",
            "OrthogonalRegression(use_orthogonal_projector=False).predict works in the zero-padded space of max(n_x, n_y) columns (proved under C18)",
            "everything that depends on what the estimator computes (zero error on contained information, invariances under rotations / scalings / shifts, GRE <= 1 on the training set, LRE with all "
